@@ -436,8 +436,7 @@ NLib(e, meta) == IF e.cmd = "import-seg" THEN Len(M(meta, In1(e)[1]).sids)
 (* ------------------------------------------------------------------ A-layer: _cmd_* case for case *)
 (* Where the output of a command goes.  "file": tabio.write / write_dataframe / write_text open    *)
 (* the path for writing (an existing file is replaced); "stdout": `outfname or sys.stdout`.        *)
-StdoutByDefault == {"target", "access", "genemetrics", "breaks", "bintest", "metrics", "sex", "export bed",
-                    "export vcf", "export seg"}
+(* (target, access, genemetrics, breaks, bintest, metrics, sex, export bed/vcf/seg have no default name: stdout) *)
 (* default names: reference "cnv_reference.cnn"; fix <sample_id>.cnr; segment <sample_id>.cns;     *)
 (* call <sample_id>.call.cns; segmetrics <sample_id of -s>.segmetrics.cns;                         *)
 (* import-seg <output_dir>/<sid>.cns for each sample of the SEG file                               *)
@@ -554,7 +553,6 @@ DirOf(o, nm) == (CHOOSE x \in o.n : x[1] = nm)[2]
 Explicit(e) == e.osel # "default"
 TargetDir(e) == IF e.cmd = "import-seg" THEN (IF e.osel = "default" THEN "" ELSE e.oname)
                 ELSE IF e.osel \in {"sub", "deep"} THEN OutDir(e.osel) ELSE ""
-ExplicitNames(e, meta) == {OutFiles(e, meta)[k].name : k \in 1..Len(OutFiles(e, meta))}
 Done(e, meta, o) == DocErr(e, meta) = "" /\ o.liberr = "" /\ o.err = ""
 ClausesOf(e) == {"completes", "library_refusal_not_hidden", "rejects_documented_error", "out_at_explicit_path", "out_equals_library",
                  "inputs_untouched"}
